@@ -260,6 +260,62 @@ def rule_pending_owned(ctx, rule='C15.PENDING'):
                 ctx.bad(rule, ctx.key(f, q.stmt(s_)), f'`{norm(q.stmt(s_))[:70]}` empties {", ".join(bad)} on the block-processor side: entries '
                         'that the DB has not written yet (a history-only flush writes neither undo infos nor UTXO changes) are lost',
                         loc=ctx.loc(f, s_))
+    # DB side: a pending container is emptied only where, on every path to that statement, it has been read (written out) in
+    # the same flush - directly, or by a callee handed the FlushData that reads it on all of its paths.  `undo_infos.clear()`
+    # at the tail of flush_dbs is reached by a history-only flush that never wrote them.
+    dbrel = ctx.repo.path('db')
+    pend = {f_.split('.', 1)[1] for f_ in fields}
+    fd_cls = ctx.repo.cls('db', 'FlushData')
+    names = [t.id for b in fd_cls.body if isinstance(b, ast.Assign) for t in b.targets if isinstance(t, ast.Name)]
+    names = [x for x in names if x != 'state']
+
+    def reads_on_all_paths(g, par, field, depth=0):
+        """statements of g that read <par>.<field> (or hand <par> to a callee that reads it on all paths)"""
+        out = []
+        for st in g.own_nodes():
+            if not isinstance(st, ast.stmt) or isinstance(st, (ast.FunctionDef, ast.AsyncFunctionDef, ast.If, ast.For, ast.While, ast.With, ast.Try)):
+                heads = [getattr(st, 'test', None), getattr(st, 'iter', None)] if isinstance(st, (ast.If, ast.For, ast.While)) else []
+                heads = [h for h in heads if h is not None]
+            else:
+                heads = [st]
+            for h in heads:
+                for x in ast.walk(h):
+                    if isinstance(x, ast.Attribute) and x.attr == field and isinstance(x.value, ast.Name) and x.value.id == par \
+                            and not (isinstance(getattr(x, '_parent', None), ast.Attribute) and x._parent.attr == 'clear'):
+                        out.append(st)
+                    if depth < 2 and isinstance(x, ast.Call):
+                        for k, a in enumerate(x.args):
+                            if isinstance(a, ast.Name) and a.id == par:
+                                cal = ctx.res.resolve_ref(x.func, g)
+                                if cal is not None and hasattr(cal, 'params'):
+                                    off = 1 if cal.params and cal.params[0] == 'self' else 0
+                                    if k + off < len(cal.params):
+                                        cp = cal.params[k + off]
+                                        ccfg = ctx.cfg(cal)
+                                        if any(ccfg.dominates(ccfg.node(r), ccfg.exit) for r in reads_on_all_paths(cal, cp, field, depth + 1)):
+                                            out.append(st)
+        return out
+    n_db = 0
+    for g in ctx.repo.funcs.values():
+        if g.unit.relpath != dbrel or g.cls != 'DB':
+            continue
+        gcfg = None
+        for c in g.own_nodes():
+            if isinstance(c, ast.Call) and isinstance(c.func, ast.Attribute) and c.func.attr == 'clear' and isinstance(c.func.value, ast.Attribute) \
+                    and isinstance(c.func.value.value, ast.Name) and c.func.value.value.id in g.params and c.func.value.attr in names:
+                par, field = c.func.value.value.id, c.func.value.attr
+                gcfg = gcfg or ctx.cfg(g)
+                st = q.stmt(c)
+                rd = [r for r in reads_on_all_paths(g, par, field) if r is not st]
+                ok_ = any(gcfg.dominates(gcfg.node(r), gcfg.node(st)) for r in rd)
+                n_db += 1
+                ctx.check(ok_, rule, ctx.key(g, st, 'emptied after it was written'),
+                          f'`{par}.{field}` is cleared only after it was read (written out) on every path of this flush',
+                          f'`{norm(st)}` is reached on a path of the flush that never wrote {par}.{field} out (a history-only flush writes '
+                          'neither undo infos nor UTXO changes): the entries are dropped unwritten', loc=ctx.loc(g, st))
+    if n_db < 3:
+        raise AnalysisError(f'{rule}: fewer than three DB-side clears of the pending containers found ({n_db})')
+    n += n_db
     ctx.ok(rule, f'{bprel} :: BlockProcessor :: pending containers emptied by the DB only',
            f'no method of BlockProcessor rebinds or clears {", ".join(fields)}')
     return n + len(fields)
